@@ -222,7 +222,7 @@ var pointerKinds = map[string]bool{"pstr": true, "pint": true, "chan": true, "fu
 // errorKinds implement error.
 var errorKinds = map[string]bool{"err": true, "perr": true, "stderr": true, "serr": true, "ierr": true, "errwrap": true, "errwrapv": true,
 	"errstringer": true, "errfmter": true, "sverr": true, "errsafefmt": true, "errsafemsg": true, "err!": true, "perr!": true, "nilerr": true,
-	"errslice": true, "structB": true, "pstructB": true}
+	"errslice": true, "structB": true, "pstructB": true, "byteerrslice": true, "sliceerr": true, "nilsliceerr": true}
 
 func (c *valConfig) pickK(rt *rapid.T, label string, xs []string) string {
 	if c.noErrors {
@@ -372,6 +372,30 @@ func (c *valConfig) genVal(rt *rapid.T, depth int, pub bool) *Val {
 				}
 				return v
 			}
+		case 5:
+			v := c.leafS(rt, "structblank", pub, false)
+			li := c.leafI(rt, "int", pub)
+			v.I, v.J = li.I, li.J
+			if v.HasT && !li.HasT {
+				v.J = v.I
+			}
+			return v
+		case 8:
+			if !c.two {
+				return c.leafS(rt, "structd", pub, false)
+			}
+		case 15:
+			// (errors are not offered where error operands are excluded: a hook
+			// printing them is re-entered without end)
+			if c.noErrors {
+				return c.leafI(rt, "bytestrarr", pub)
+			}
+			return c.leafI(rt, pick(rt, "bek", []string{"byteerrslice", "bytestrarr"}), pub)
+		case 17:
+			if c.noErrors {
+				return c.leafS(rt, "funcstringer", pub, false)
+			}
+			return c.leafS(rt, pick(rt, "sek", []string{"sliceerr", "funcstringer"}), pub, false)
 		case 13:
 			if depth == 0 {
 				return &Val{K: "deep", I: int64(rapid.IntRange(0, 29).Draw(rt, "deepn")), Sub: []*Val{c.leafS(rt, "str", pub, false)}}
@@ -396,6 +420,10 @@ func (c *valConfig) genVal(rt *rapid.T, depth int, pub bool) *Val {
 			v.I = 3 + (v.I&0xffff)%5000
 			v.J = 3 + (v.J&0xffff)%5000
 			return v
+		}
+		if !c.noErrors && rapid.IntRange(0, 7).Draw(rt, "nilrecv") == 5 {
+			// nil receivers that are not pointers: the method's panic is reported
+			return &Val{K: pick(rt, "nrk", []string{"nilsliceerr", "nilfuncstringer"})}
 		}
 		k := c.pickK(rt, "k", panicKinds)
 		v := c.leafS(rt, k, pub, false)
@@ -719,6 +747,25 @@ var containerKinds = []string{"islice", "islice", "pislice", "iarr2", "sslice", 
 
 func (c *valConfig) genContainer(rt *rapid.T, depth int, pub bool) *Val {
 	k := c.pickK(rt, "ck", containerKinds)
+	if !c.two && rapid.IntRange(0, 24).Draw(rt, "mak") == 13 {
+		// keys that are arrays / structs holding interfaces, several of them
+		// equal (also nil) in their first component
+		v := &Val{K: pick(rt, "makk", []string{"mak", "msk"})}
+		n := rapid.IntRange(1, 4).Draw(rt, "makn")
+		first := []*Val{{K: "nil"}, {K: "int", I: 1}, {K: "str", S: B("k")}, {K: "bool", I: 1}}
+		for i := 0; i < n; i++ {
+			k0 := first[rapid.IntRange(0, len(first)-1).Draw(rt, "mak0")]
+			var k1 *Val
+			if v.K == "msk" || rapid.Bool().Draw(rt, "mak1i") {
+				k1 = &Val{K: "int", I: int64(i)}
+			} else {
+				k1 = &Val{K: "str", S: B(string(rune('a' + i)))}
+			}
+			v.Keys = append(v.Keys, k0, k1)
+			v.Sub = append(v.Sub, c.genVal(rt, depth+1, pub))
+		}
+		return v
+	}
 	if !c.two && rapid.IntRange(0, 24).Draw(rt, "mfi") == 11 {
 		// float keys including NaN (several NaN keys are distinct entries)
 		v := &Val{K: "mfi"}
